@@ -271,6 +271,31 @@ linear = [Contract(
            for i in range(pt_)},
         "returns-K-and-the-trend-terms": f"list(result.keys()) == {['K'] + [f'v{i}' for i in range(pt_)]!r}",
     }) for pt_ in (1, 3)]
+
+
+def sigma_v_list_param(n):
+    """the trend sigmas as a plain list of quantities - each in a unit of its own choosing (of the right dimension)"""
+    def build(ex, path, name):
+        items = []
+        for i in range(n):
+            u_ = A.sym_unit(f"sigma_v{i}.unit", (-1 - i, 1, 0))
+            path.assume(*u_.sym_facts)
+            items.append(A.quantity(z3.Real(f"sigma_v{i}.value"), u_))
+        return PyList(items, None, True)
+    return build
+
+
+linear += [Contract(
+    PR + "default_linear_prior", PROPERTY,
+    params={"sigma_K0": q_param("sigma_K0", SPEED), "P0": q_param("P0", TIME), "sigma_v": sigma_v_list_param(pt_), "poly_trend": ("const", pt_),
+            "model": "opaque", "pars": "none"},
+    cases=[{"_name": f"poly_trend={pt_},sigma_v-as-a-list"}],
+    ensures={
+        **{f"v{i}-is-a-zero-mean-normal-with-the-given-sigma-and-unit": f"wired('v{i}').ctor == 'Normal' and wired('v{i}').args[1] == 0 and "
+                                                                         f"wired('v{i}').args[2] == sigma_v[{i}].value and wired('v{i}').unit is sigma_v[{i}].unit"
+           for i in range(pt_)},
+        "returns-K-and-the-trend-terms": f"list(result.keys()) == {['K'] + [f'v{i}' for i in range(pt_)]!r}",
+    }) for pt_ in (2, 3)]
 for _c in linear:
     _c.cfg_mode = True
 CONTRACTS += [nonlinear] + linear
